@@ -20,6 +20,7 @@ import (
 	"math/big"
 	"net/http"
 	"net/http/httptest"
+	"net/url"
 	"strings"
 	"sync"
 	"time"
@@ -198,6 +199,14 @@ type vfProvider struct {
 	minted     []vfMinted
 	issuedRT   map[string]bool // refresh tokens this provider issued: anything else is refused, as a conformant provider would
 	rtOwner    map[string]string // refresh token -> e-mail of the user it was issued to (concurrency harness)
+	// a token endpoint behind a gateway that answers with redirects and keeps the transaction in a cookie: /token stores the
+	// form, sets the cookie and redirects to /token/wait (which lets other transactions arrive for txnWait), which redirects
+	// to /token/finish, which answers the transaction named by the cookie it is shown
+	txnRedirect bool
+	txnWait     time.Duration
+	txnSeq      int
+	txnForms    map[string]url.Values
+	txnArrivals int
 }
 
 // what the provider answered to a token-endpoint call (the model's `ans` input)
@@ -269,6 +278,8 @@ func vfNewProvider(clientID string, endSession bool, r *vfRand) *vfProvider {
 		json.NewEncoder(w).Encode(map[string]interface{}{"keys": []interface{}{jwk}})
 	})
 	mux.HandleFunc("/token", p.handleToken)
+	mux.HandleFunc("/token/finish", p.handleToken)
+	mux.HandleFunc("/token/wait", p.handleTokenWait)
 	mux.HandleFunc("/revoke", func(w http.ResponseWriter, req *http.Request) {
 		p.mu.Lock()
 		p.revokeHits++
@@ -364,10 +375,46 @@ func (p *vfProvider) newRefreshTokenFor(sc *vfTokenScript) string {
 	return s
 }
 
+func (p *vfProvider) handleTokenWait(w http.ResponseWriter, req *http.Request) {
+	p.mu.Lock()
+	p.txnArrivals++
+	seen, wait := p.txnArrivals, p.txnWait
+	p.mu.Unlock()
+	for end := time.Now().Add(wait); time.Now().Before(end); time.Sleep(200 * time.Microsecond) {
+		p.mu.Lock()
+		more := p.txnArrivals > seen
+		p.mu.Unlock()
+		if more { // another transaction has passed the first hop meanwhile
+			time.Sleep(2 * time.Millisecond)
+			break
+		}
+	}
+	http.Redirect(w, req, p.issuer+"/token/finish", http.StatusTemporaryRedirect)
+}
+
 func (p *vfProvider) handleToken(w http.ResponseWriter, req *http.Request) {
 	req.ParseForm()
 	p.mu.Lock()
 	defer p.mu.Unlock()
+	if p.txnRedirect {
+		if req.URL.Path == "/token" {
+			p.txnSeq++
+			id := fmt.Sprintf("txn-%d-%x", p.txnSeq, p.r.next()&0xffffff)
+			if p.txnForms == nil {
+				p.txnForms = map[string]url.Values{}
+			}
+			p.txnForms[id] = req.Form
+			http.SetCookie(w, &http.Cookie{Name: "gw_txn", Value: id, Path: "/"})
+			http.Redirect(w, req, p.issuer+"/token/wait", http.StatusTemporaryRedirect)
+			return
+		}
+		ck, err := req.Cookie("gw_txn")
+		if err != nil || p.txnForms[ck.Value] == nil {
+			p.fail(w, 400, "invalid_request", false)
+			return
+		}
+		req.Form = p.txnForms[ck.Value]
+	}
 	call := vfTokenCall{GrantType: req.Form.Get("grant_type"), Code: req.Form.Get("code"),
 		RedirectURI: req.Form.Get("redirect_uri"), CodeVerifier: req.Form.Get("code_verifier"),
 		RefreshToken: req.Form.Get("refresh_token")}
